@@ -126,7 +126,8 @@ def cfg_of(hist):
 # ------------------------------------------------------------------ building a state
 class Built:
     def __init__(self, hist):
-        _c, dll, win = hist[0]
+        _c, dll, win = hist[0][:3]
+        self.raising = len(hist[0]) > 3 and hist[0][3] == 'raising'
         rt_spin = rt.SPIN_LIMIT
         self.sc = {'dll': dll, 'base_lat': 0.2e-3,
                    'stacks': [{'name': 'X', 'cas': [X], 'win': win}, {'name': 'Y', 'cas': [P1], 'win': 1}]}
@@ -137,6 +138,13 @@ class Built:
         self.y.deaf = True
         self.y.silent_from = 0
         self.peer = self.net.bus.ghost_node()
+        if self.raising:
+            # the application's subscriber callbacks of X raise (an application bug): contained by the bus listener, and no
+            # session may be left behind because of it
+            def hook(tag, priority, pgn, sa, data):
+                if self.raising and tag.startswith('X.'):
+                    raise RuntimeError("subscriber callback failed")
+            self.net.rec.hooks.append(hook)
         self.big = 21 if dll == 'j1939-21' else 180      # own messages: exact multiples of the packet size
         for s in hist[1:]:
             self.apply(s)
@@ -218,6 +226,7 @@ def probe(hist):
                 return ["after 3.1 s of silence: " + probs[0]]
             if not net.is_idle(b.x):
                 return ["after 3.1 s of silence: " + net.idle_problems()[0]]
+            b.raising = False          # the follow-up is judged with well-behaved subscribers
             fired = []
             t_arm = w.now
             b.x.ecu.add_timer(0.05, lambda cookie: fired.append(w.now) and False)
@@ -326,12 +335,17 @@ def run(tier, seed):
                 roots.append([cfg] + list(sd))
                 depths.append(1 if quick else 2)
             plan.append((cfg, roots, depths))
+    # the same exchanges with subscriber callbacks that raise: every prefix of the well-formed exchanges, depth 1
+    for dll in ('j1939-21', 'j1939-22'):
+        cfg = ('cfg', dll, 1, 'raising')
+        roots = [[cfg]] + [[cfg] + list(sd) for sd in seeds(dll, 1)]
+        plan.append((cfg, roots, [2 if quick else 3] + [1] * (len(roots) - 1)))
     info = {}
     try:
         for cfg, roots, depths in plan:
             r = mc.bfs('vf.props.c07', roots, lambda i, d=depths: d[i], acc,
                        probe=True, sig=csig)
-            info['%s win=%d' % (cfg[1], cfg[2])] = {'states_per_level': r['levels'], 'depth_completed': r['depth_completed'],
+            info['%s win=%d%s' % (cfg[1], cfg[2], ' raising subscribers' if len(cfg) > 3 else '')] = {'states_per_level': r['levels'], 'depth_completed': r['depth_completed'],
                                                    'frontier_emptied': r['frontier_emptied'], 'roots': len(roots)}
             seen_items = list(r['seen'].items())
             for dig, h in seen_items[len(seen_items) // 2:len(seen_items) // 2 + 1]:
